@@ -143,3 +143,54 @@ Proof. exact power_loss_during_close. Qed.
 Print Assumptions C09_power_loss_during_close_epochs.
 
 Definition C09_window_nonvacuous := power_loss_any_instant_nonvacuous_window.
+
+(* ---- POWER LOSS on the chain and PHYSICAL index (PhysPowerLoss.v): the power-loss model restated for any index
+   ([gpl], coinciding with [pl] on the flat index); related disks and related traces have related admissible
+   images, in both directions, with the same set of files that lost a write ---- *)
+From Pogreb Require Import Base BaseLemmas Crc Bytes Record RecordProofs Flat Index Spec DB DBInv
+  DBLemmas DBProofsOps DBMeta DBProofsCompact DBProofsRecovery DBSim DBRun DBSimExact
+  Bucket Phys PhysProofs PhysDB DBProofsCrash DBSimSessions PhysCrash PowerLoss PowerLoss2 PhysPowerLoss.
+Import ListNotations.
+(* after a completed Close of the physical-index database every admissible image IS the closed directory (up to orphans): main.pix / index.pmt hold exactly the index Close wrote, which satisfies the physical invariant *)
+Theorem C09_closed_is_durable_on_the_physical_index :
+  forall P cf1 cfp cff0 os cfs tr (sf : (@DB.st flat)) c (m : @DB.mem flat) sf1 o L' img1,
+
+  params_ok P -> XOpen P cff0 -> T3 cf1 cfp cff0 ->
+  xrun P cff0 os cfs tr (sf, c) -> s_mem sf = Some m ->
+  db_close flat_ops (clear_trace sf) = (sf1, o) ->
+  let s1 := fst (gxrun phys_ops P cf1 os) in
+  let s1a := fst (db_close phys_ops (clear_trace s1)) in
+  gpl phys_ops fnone (s_disk (fst cf1)) (gxtrace phys_ops P cf1 os ++ s_trace s1a) L' img1 ->
+  snd (db_close phys_ops (clear_trace s1)) = OOk /\ s_mem s1a = None /\
+  img1 = set_orphans (s_disk s1a) (d_orphans img1) /\
+  d_index img1 = d_index (s_disk s1a) /\ d_imeta img1 = d_imeta (s_disk s1a) /\ d_lock img1 = false /\
+  stored_index img1 (m_idx m) /\ phys_disk_ok img1 /\
+  exists imgp imgf,
+    gpl chain_ops fnone (s_disk (fst cfp))
+        (gxtrace chain_ops P cfp os ++ s_trace (fst (db_close chain_ops (clear_trace (fst (gxrun chain_ops P cfp os)))))) L' imgp /\
+    pl fnone (s_disk (fst cff0)) (tr ++ s_trace sf1) L' imgf /\
+    gdisk_rel PR img1 imgp /\ disk_rel imgp imgf /\ imgf = set_orphans (s_disk sf1) (d_orphans imgf).
+Proof. exact C09_closed_is_durable_phys. Qed.
+Print Assumptions C09_closed_is_durable_on_the_physical_index.
+
+(* the next Open on any admissible image is a CLEAN open that loads (trusts) the index of the image; answers = the closed contents *)
+Theorem C09_reopen_on_the_physical_index :
+  forall P seed cf1 cfp cff0 os cfs tr (sf : (@DB.st flat)) c (m : @DB.mem flat) sf1 o L' img1,
+
+  params_ok P -> XOpen P cff0 -> T3 cf1 cfp cff0 ->
+  xrun P cff0 os cfs tr (sf, c) -> s_mem sf = Some m ->
+  db_close flat_ops (clear_trace sf) = (sf1, o) ->
+  let s1 := fst (gxrun phys_ops P cf1 os) in
+  let s1a := fst (db_close phys_ops (clear_trace s1)) in
+  gpl phys_ops fnone (s_disk (fst cf1)) (gxtrace phys_ops P cf1 os ++ s_trace s1a) L' img1 ->
+  answers1 P s1 (abs (s_disk sf)) /\
+  exists s2, db_open phys_ops P seed (closed1 img1) = (s2, OOpened false) /\
+    phys_open_ok s2 /\ answers1 P s2 (abs (s_disk sf)) /\
+    (exists m2, s_mem s2 = Some m2 /\ d_index img1 = Some (m_idx m2) /\ d_index (s_disk s1a) = Some (m_idx m2) /\
+                PhysInv (m_idx m2)) /\
+    exists sp2 sf2, gst_rel PR s2 sp2 /\ st_rel sp2 sf2 /\ Inv P sf2 /\ s_mem sf2 <> None /\
+                    meq (abs (s_disk sf2)) (abs (s_disk sf)).
+Proof. exact C09_reopen_phys. Qed.
+Print Assumptions C09_reopen_on_the_physical_index.
+
+Definition C09_physical_nonvacuous := PhysPLEx.C09_phys_nonvacuous.
